@@ -288,13 +288,7 @@ func verifHandle(sub string, req map[string]any) (reply map[string]any, err erro
 		all := verifStrings(req["args"])
 		flags, rest := splitFlagsFromArgs(slices.Clone(all))
 		filtered, firstUnknown := filterForwardBuildFlags(slices.Clone(flags))
-		garbleFlag := ""
-		for _, f := range flags {
-			if rxGarbleFlag.MatchString(f) {
-				garbleFlag = f
-				break
-			}
-		}
+		garbleFlag := misplacedGarbleFlag(slices.Clone(flags))
 		rejectErr := ""
 		if err := rejectUnknownBuildFlags(slices.Clone(flags)); err != nil {
 			rejectErr = err.Error()
